@@ -2,6 +2,7 @@ import Gv.Oracle.Common
 import Gv.Model.Cli
 import Gv.Gen.Tables
 import Gv.Spec.Rand
+import Gv.Oracle.CliDefaults
 /-!
 Oracle handlers of property C11.
 
@@ -41,6 +42,60 @@ def parseDec (s : String) : Option Float :=
     if b.all Char.isDigit then pure (Float.ofScientific x true b.length) else none
   | _ => none
 
+/-- signed decimal literal -/
+def parseSDec (s : String) : Option Float :=
+  match s.toList with
+  | '-' :: t => (parseDec (String.ofList t)).map fun x => -x
+  | _ => parseDec s
+
+/-- the flags of a seeded command: `--flag value` pairs and switches (`--flag`, value `true`), short names
+replaced through `alias`; `none` when a flag is not one of `known` or a value is missing -/
+def parseOpts (alias : List (String × String)) (switches known : List String) : List String → Option (List (String × String))
+  | [] => some []
+  | a :: rest =>
+    let a := ((alias.find? (·.1 == a)).map (·.2)).getD a
+    if !known.contains a then none
+    else if switches.contains a then (parseOpts alias switches known rest).map fun l => (a, "true") :: l
+    else match rest with
+      | [] => none
+      | v :: rest' => (parseOpts alias switches known rest').map fun l => (a, v) :: l
+
+/-- value of `--flag`: the last occurrence on the command line, else the default registered in `cmd/*.go` -/
+def optOr (opts : List (String × String)) (cmd flag : String) : Option String :=
+  match opts.reverse.find? (·.1 == "--" ++ flag) with
+  | some v => some v.2
+  | none => CliDefaults.effective cmd flag
+
+def seedOf (opts : List (String × String)) : Option Int :=
+  (opts.reverse.find? (·.1 == "--seed")).bind fun v => parseInt? v.2
+
+def nameLines (l : List String) : String := String.join (l.map fun n => n ++ "|")
+
+/-- where a list of names goes: appended to stdout, dropped (`none` = /dev/null); any other file is not modelled -/
+def namesTo (file : String) (l : List String) : Option String :=
+  if file == "stdout" || file == "-" then some (nameLines l) else if file == "none" then some "" else none
+
+/-- the seeded commands given as `cmd sub <flags…>` (flags in any order, defaults from the flag registrations) -/
+def seededFlags (rows : Rows) (argv : List String) : Option String :=
+  let n := rows.length
+  let L : Nat := Spec.width rows
+  match argv with
+  | "shuffle" :: "sites" :: fl => do
+    -- cmd/sites.go: per alignment `ShuffleSites(rate, rogue, stable-rogues)`, the alignment, then the rogue names
+    let o ← parseOpts [("-r", "--rate")] ["--stable-rogues"] ["--seed", "--rate", "--rogue", "--stable-rogues", "--rogue-file"] fl
+    let s ← seedOf o
+    let rate ← parseSDec (← optOr o "sitesCmd" "rate")
+    let rogue ← parseSDec (← optOr o "sitesCmd" "rogue")
+    let stable := (← optOr o "sitesCmd" "stable-rogues") == "true"
+    let rf ← optOr o "sitesCmd" "rogue-file"
+    if rate < 0 || rate > 1 || rogue < 0 || rogue > 1 then pure "rc=1 out=" else
+    let nbSites := fracOf rate L
+    let nbRogueSites := (rate * (1.0 - rate) * Float.ofNat L).floor.toUInt64.toNat
+    if nbRogueSites + nbSites > L then pure "rc=1 out=" else
+    let r := runCmd (shuffleSites nbSites nbRogueSites (fracOf rogue n) stable rows) s 0
+    pure ("rc=0 out=" ++ fasta r.1 ++ (← namesTo rf r.2))
+  | _ => none
+
 def sameVerdict (impl what : String) : Ans :=
   ⟨"same", if impl.startsWith "same" then "pass" else "fail:" ++ what⟩
 
@@ -76,7 +131,7 @@ def handle : Handler := fun op args impl =>
       | ["mutate", "snvs", "-r", r, "--seed", s] => do
         let s ← parseInt? s; let r ← parseDec r
         pure ("rc=0 out=" ++ fasta (runCmd (mutate r Gen.stdnucleotides rows) s 0))
-      | _ => none
+      | _ => seededFlags rows argv
     match out with
     | some m => some ⟨m, verdictOf (impl == m) "seeded-command-bytes"⟩
     | none => some ⟨"bad-args", "na"⟩
